@@ -8,12 +8,13 @@ import numpy as np
 
 from sim import filgen
 from sim import transforms as T
-from sim.core import Rejected, SimLivelock, Violation
+from sim.core import open_reader, Rejected, SimLivelock, Violation
 from sim.disk import SimDisk
 
 ID = "C07"
 GUARD_KERNELS = True
 SHRINK_LISTS = ("ops", "faults", "pre", ("files", "nsamps"))
+SHRINK_SIMPLE = {"earlier": None}
 SHRINK_MIN = {"nchans": 1, "nbits": 1, "gulp": 1, "tfactor": 1, "ffactor": 1, "nsub": 1, "batch_size": 1, "chanpersub": 2, "nchans_b": 2}
 
 
@@ -63,7 +64,7 @@ def gen_files(rng, name, tier):
     mx = 40 if tier == "quick" else 160
     counts = [rng.choice([1, 2, rng.randint(1, mx // nfiles), rng.randint(1, mx // nfiles)]) for _ in range(nfiles)]
     spec = {"nbits": nbits, "nchans": nchans, "nsamps": counts, "pad": [rng.randint(0, 5) for _ in counts],
-            "vseed": rng.randrange(1 << 16), "mode": T.data_mode(name, nbits)}
+            "vseed": rng.randrange(1 << 16), "mode": T.data_mode_rng(name, nbits, rng)}
     if name == "downsample" and rng.random() < 0.3:
         spec["mode"] = "flat"  # exact-integer block means: the reduced value is then fixed by ANY rounding rule
         if rng.random() < 0.5:
@@ -112,7 +113,21 @@ def generate(rng, tier) -> dict:
     from .c06 import gen_pre
 
     pre = gen_pre(rng, N) if rng.random() < 0.3 else []
-    return {"files": spec, "name": name, "params": params, "start": start, "nsamps": nsamps, "pre": pre, "ops": ops, "faults": faults}
+    sc = {"files": spec, "name": name, "params": params, "start": start, "nsamps": nsamps, "pre": pre, "ops": ops, "faults": faults}
+    if rng.random() < 0.2:
+        # an EARLIER session in the same process: another file (other channel count, same depth) was
+        # processed with the same transform by a reader that no longer exists
+        for _ in range(20):
+            nch2 = rng.choice([c for c in (1, 2, 4, 6, 8, 12, 16) if (c * spec["nbits"]) % 8 == 0])
+            if nch2 != spec["nchans"] and not (T.needs_disp_band(name) and nch2 < 2):
+                spec2 = {**{k: v for k, v in spec.items() if k not in ("big",)}, "nchans": nch2, "nsamps": [rng.randint(2, 12)], "pad": [0],
+                         "vseed": rng.randrange(1 << 16)}
+                try:
+                    sc["earlier"] = {"files": spec2, "params": T.gen_params(name, rng, spec2, spec2["nsamps"][0]), "gulp": rng.randint(1, 12)}
+                except Rejected:
+                    continue
+                break
+    return sc
 
 
 def fixup(sc):
@@ -218,6 +233,26 @@ def _diff(a, b) -> str:
     return f"{len(bad)} of {a.size} differ, first at sample {i} chan {j}: got {a[i, j]!r} want {b[i, j]!r}"
 
 
+def run_earlier_session(sc, ctx, sim) -> None:
+    """Process another file with the same transform through its own reader, then drop every object.
+    Context, not the call under test: whatever it does must not influence the scenario's own outputs."""
+    e = sc["earlier"]
+    d = os.path.join(ctx.root, "earlier")
+    os.makedirs(d, exist_ok=True)
+    fs0 = filgen.write_fileset(d, e["files"], stem="prev")
+    sim.begin_op(-2, budget=1000000)
+    try:
+        r0 = open_reader("C07", fs0.paths)
+        T.call(sc["name"], r0, d, e["params"], e["gulp"], 0, None)
+        r0._file.close()
+        del r0
+    except Violation:
+        raise
+    except Exception as ex:  # noqa: BLE001
+        ctx.observations["earlier-session-raised:" + type(ex).__name__] += 1
+    ctx.probe("earlier-session")
+
+
 def blocks_of(ns, eff_gulp, skipback=0) -> int:
     if eff_gulp <= skipback:
         return 0
@@ -241,13 +276,16 @@ def execute(sc, ctx) -> None:
     ctx.sig += [name, f"nbits{nbits}", "multi" if len(spec["nsamps"]) > 1 else "single"]
 
     with SimDisk(ctx, sc["faults"]) as sim:
-        reader = FilReader(fs.paths)
-        delays = None
-        if name == "subband":
-            delays = np.atleast_1d(np.asarray(reader.header.get_dmdelays(params["dm"])))
+        reader = None if sc.get("earlier") else open_reader("C07", fs.paths)
         crcs = []
         windows = []
         kept = None
+        if sc.get("earlier"):
+            run_earlier_session(sc, ctx, sim)
+            reader = open_reader("C07", fs.paths)  # opened AFTER the earlier session's objects are gone
+        delays = None
+        if name == "subband":
+            delays = np.atleast_1d(np.asarray(reader.header.get_dmdelays(params["dm"])))
         if sc.get("pre"):
             # earlier, unrelated calls on the SAME reader object: the transform must not depend on them
             from .c06 import run_pre
